@@ -64,6 +64,10 @@ def build_set(R, set_cls, tier):
         p_assign = R.choice([0.0, 0.2, 0.5, 1.0])
         for an in names:
             a = base.attributes[an]
+            if a._units_settable and R.random() < 0.06:
+                # units without a value: the attribute has no value, so it stays an absent attribute
+                kwargs[an] = R.choice([{'units': 'm'}, AttrSetup(units='s')])
+                continue
             if R.random() >= p_assign:
                 continue
             try:
